@@ -388,7 +388,13 @@ fn representative_items(witness: bool) -> Vec<Case> {
 }
 
 pub fn run_c02(ctx: &Ctx, rep: &mut Report) {
+    if let Some((k, n)) = ctx.shard {
+        super::history::sharded_pairs(rep, 6, false, ctx.tier.thorough(), k, n);
+        super::history::sharded_pairs(rep, 7, false, ctx.tier.thorough(), k, n);
+        return;
+    }
     run_mode(ctx, rep, Mode::Value);
+    super::spawn_shards(ctx, rep, 16);
     super::history2(rep, judge, &representative_items(false));
     super::history::space(rep, 6, false, ctx.tier.thorough());
     super::history::space(rep, 7, false, ctx.tier.thorough());
@@ -401,7 +407,14 @@ pub fn run_c02(ctx: &Ctx, rep: &mut Report) {
 }
 
 pub fn run_c03(ctx: &Ctx, rep: &mut Report) {
+    if let Some((k, n)) = ctx.shard {
+        for nc in 5..=7 {
+            super::history::sharded_pairs(rep, nc, true, ctx.tier.thorough(), k, n);
+        }
+        return;
+    }
     run_mode(ctx, rep, Mode::Witness);
+    super::spawn_shards(ctx, rep, 16);
     super::history2(rep, judge, &representative_items(true));
     for n in 5..=7 {
         super::history::space(rep, n, true, ctx.tier.thorough());
